@@ -1,6 +1,7 @@
 import ElaVerif.Lemmas.WalletCodec
 import ElaVerif.Lemmas.WalletAddress
 import ElaVerif.Lemmas.WalletProgram
+import ElaVerif.Lemmas.WalletMultisig
 import ElaVerif.Props.C05
 /-!
 # C37 — wallet signatures verify, and only for the signed data; addresses and amounts parse back
@@ -80,6 +81,31 @@ theorem C37_wallet_schnorr_accepts {D : Type} (O : Oracles D) (d : D) (pub sig :
     (hver : O.schnorr pub d sig = true) :
     runPrograms Fix.all O d [⟨pfx, O.codeHash (schnorrCode pub)⟩] [⟨schnorrCode pub, sig⟩] = ok :=
   wallet_schnorr_accepts O d pub sig pfx hpub hsig hp hver
+
+/-- **m-of-n account.** For the script `CreateMultiSigRedeemScript` builds from 2..16 keys (33 bytes
+    each), with `k` distinct members signing (m ≤ k ≤ n, in any order — `ss` lists (key, signature)),
+    every key decoding and each signature verifying for its signer's key and for no other key of the
+    script, the program `(script, 64‖sig₁‖…‖64‖sig_k)` that `SignMultiSignTransaction` accumulates is
+    accepted for the multisig address of the script. -/
+theorem C37_wallet_multisig_accepts {D : Type} (O : Oracles D) (d : D) (m : Nat) (pubs : List Bytes)
+    (ss : List (Bytes × Bytes))
+    (h33 : ∀ k ∈ pubs, k.length = 33) (hn2 : 2 ≤ pubs.length) (hn16 : pubs.length ≤ 16)
+    (hm1 : 1 ≤ m) (hmn : m ≤ pubs.length) (hk1 : m ≤ ss.length) (hk2 : ss.length ≤ pubs.length)
+    (hs : ∀ x ∈ ss, x.2.length = 64) (hmem : ∀ x ∈ ss, x.1 ∈ pubs) (hnd : (ss.map (·.1)).Nodup)
+    (hdec : ∀ q ∈ pubs, O.decodeOk q = true)
+    (hver : ∀ x ∈ ss, ∀ q ∈ pubs, O.verify q d x.2 = true ↔ q = x.1) :
+    ∃ code, multiSigCode m pubs = some code ∧
+      runPrograms Fix.all O d [⟨PrefixMultiSig, O.codeHash code⟩] [⟨code, sigChunks ss⟩] = ok :=
+  wallet_multisig_accepts O d m pubs ss h33 hn2 hn16 hm1 hmn hk1 hk2 hs hmem hnd hdec hver
+
+/-- a scheme for the example: key `[k, 0, …]`, signature `[k, 0, …]` verifies iff first bytes agree -/
+def toy2 : Oracles Unit := ⟨fun _ => true, fun k _ s => k.head? == s.head?, fun _ _ _ => false, fun c => c.take 3⟩
+def tk (i : UInt8) : Bytes := i :: List.replicate 32 0
+def ts (i : UInt8) : Bytes := i :: List.replicate 63 0
+/-- non-vacuity: 2-of-3, members 3 and 1 sign (in that order) -/
+example : ∃ code, multiSigCode 2 [tk 1, tk 2, tk 3] = some code ∧
+    runPrograms Fix.all toy2 () [⟨PrefixMultiSig, toy2.codeHash code⟩] [⟨code, sigChunks [(tk 3, ts 3), (tk 1, ts 1)]⟩] = ok :=
+  ⟨_, rfl, by decide⟩
 
 /-- non-vacuity with the toy scheme of C05 -/
 example : runPrograms Fix.all ElaVerif.C05.toy ()
